@@ -260,7 +260,9 @@ func (ck *Check) qResult(ctx *Ctx, fn *ssa.Function, depth int) (*Formula, bool)
 		for _, l := range order {
 			over := ctx.Term(l.Over)
 			lid := "L" + ctx.instrID(l.IdxPhi)
-			isElem := func(t *Term) bool { return t.Kind == "elem" && t.ID == lid && len(t.Args) == 1 && t.Args[0].Key() == over.Key() }
+			isElem := func(t *Term) bool {
+				return t.Kind == "elem" && t.ID == lid && len(t.Args) == 1 && t.Args[0].Key() == over.Key()
+			}
 			rangeAtoms := map[string]bool{}
 			for _, s := range l.Header.Succs {
 				if l.Blocks[s] {
